@@ -443,6 +443,13 @@ func runBoot(c BootCase, rec *h.Rec) error {
 				floor = 12
 			}
 			rec.Class("floor=flat12")
+		} else if bl, _ := getBase(c.Cfg.Base); bl.announced-4 > floor {
+			// The doc comment of the shipped literal announces a precision for the full-size set (2^15 / 2^14 slots). The
+			// size-reduced set keeps every circuit option, has less noise (smaller N) and carries the repository's
+			// message-ratio correction "to keep the same precision": announced - 4 bits (3 bits of margin observed over
+			// 600 cases, N = 2^8..2^10, one more allowed), minus the bits lost in ScaleDown (below).
+			floor = bl.announced - 4
+			rec.Class("floor=announced-4")
 		} else {
 			rec.Class("floor=formula")
 		}
@@ -474,6 +481,9 @@ func runBoot(c BootCase, rec *h.Rec) error {
 			ps := precision(want[i], have)
 			rec.Note(fmt.Sprintf("prec%d.%d", idx, i), fmt.Sprintf("avg %.1f/%.1f min %.1f/%.1f", ps.avgRe, ps.avgIm, ps.minRe, ps.minIm))
 			floor := math.Min(floor, sineFloor[i])
+			if os.Getenv("C18_TRACE") != "" {
+				fmt.Printf("PREC base=%s own=%v res=%s logN=%d slots=%d ct=%d lvl=%d eph=%d pat=%s api=%s: %.1f floor %.1f sine %.1f\n", c.Cfg.Base, ownOptions, c.Cfg.Res, c.Cfg.LogN, c.Cfg.LogSlots, c.CtSlots, c.Level, c.Cfg.Eph, c.Pattern, c.API, math.Min(ps.avgRe, ps.avgIm), floor, sineFloor[i])
+			}
 			if ps.avgRe < floor || ps.avgIm < floor {
 				return h.Failf("C18:"+c.API+":precision:mean", "ciphertext %d: mean precision real %.2f / imag %.2f bits < floor %.2f bits", i, ps.avgRe, ps.avgIm, floor)
 			}
